@@ -290,10 +290,10 @@ def gen_items(R, count, big):
                 continue
             if R.rng.random() < 0.5:
                 a = R.rng.choice([0.0, 0.5, 1.0])
-                items.append({"kind": kind, "gen": "uniform", "P": P, "a": a, "b": a + R.rng.choice([0.5, 1.0, 10.0]), "seed": R.rng.randrange(10 ** 6)})
+                items.append({"kind": kind, "gen": "uniform", "P": P, "a": a, "b": a + R.rng.choice([0.5, 1.0, 10.0]), "seed": R.rng.choice([0, 1, R.rng.randrange(10 ** 6), R.rng.randrange(10 ** 6)])})
             else:
                 items.append({"kind": kind, "gen": "normal", "P": P, "a": R.rng.choice([0.0, 0.5, 1.0, -0.5]), "b": R.rng.choice([0.01, 1.0, 4.0]),
-                              "seed": R.rng.randrange(10 ** 6)})
+                              "seed": R.rng.choice([0, 1, R.rng.randrange(10 ** 6), R.rng.randrange(10 ** 6)])})
         else:
             P = gslib.rand_profile(R.rng, n, m, R.rng.choice([0, .3]))
             if all(v is None for row in P for v in row):
